@@ -19,6 +19,13 @@ void h_##T##_emplace_front(void) { struct T *s; struct Elem *x; T##__emplace_fro
 void h_##T##_push_back(void) { struct T *s; struct Elem *x; T##__push_back(s, x); CANARY; } \
 void h_##T##_push_front(void) { struct T *s; struct Elem *x; T##__push_front(s, x); CANARY; } \
 void h_##T##_pop_back(void) { struct T *s; struct Elem *r; T##__pop_back(s, r); CANARY; } \
-void h_##T##_pop_front(void) { struct T *s; struct Elem *r; T##__pop_front(s, r); CANARY; }
+void h_##T##_pop_front(void) { struct T *s; struct Elem *r; T##__pop_front(s, r); CANARY; } \
+void h_##T##_ctor_cap(void) { struct T *s; size_t c; T##__ctor__unsigned_long(s, c); CANARY; } \
+void h_##T##_ctor_list(void) { struct T *s; struct std_initializer_list_Elem l; size_t c; T##__ctor__std_initializer_list_Elem_unsigned_long(s, l, c); CANARY; } \
+void h_##T##_assign_copy(void) { struct T *s; struct T *o; T##__assign_copy(s, o); CANARY; } \
+void h_##T##_ctor_copy(void) { struct T *s; struct T *o; T##__ctor_copy(s, o); CANARY; } \
+void h_##T##_assign_move(void) { struct T *s; struct T *o; T##__assign_move(s, o); CANARY; } \
+void h_##T##_ctor_move(void) { struct T *s; struct T *o; T##__ctor_move(s, o); CANARY; } \
+void h_##T##_dtor(void) { struct T *s; T##__dtor(s); CANARY; }
 HARNESSES(RBt)
 HARNESSES(RBf)
